@@ -1,0 +1,15 @@
+//go:build verif
+
+package plenc
+
+// VerifResetDefault empties the package-level default instance and registers
+// the default codecs again, so that the simulator in /verif can exercise first
+// use through the package-level API more than once per process. It only exists
+// when plenc is built with the "verif" build tag.
+func VerifResetDefault() {
+	defaultPlenc.codecRegistry.codecRegistry.Range(func(key, _ any) bool {
+		defaultPlenc.codecRegistry.codecRegistry.Delete(key)
+		return true
+	})
+	defaultPlenc.RegisterDefaultCodecs()
+}
